@@ -53,6 +53,19 @@ claim('C05',
       'Integer coefficients / operator maps; zero boundary charges; exhaustive universe L<=2 (<=2-3 chains), random '
       'lists up to L=6 and 9 chains; the step relation between consecutive sites is checked through the invariant, '
       'not by id-exact refinement (fresh ids are a gauge freedom).')
+claim('C17',
+      'TLC model checking of Unfold.tla (functional transcriptions of from_optrees / from_automaton against the symbolic '
+      'meanings, all trees / automata of a bounded universe) + TLC trace validation (TraceUnfold.tla) of real unfoldings '
+      'and of as_matrix() of chains, trees and graphs',
+      'For every tree list and automaton of the universe TLC checks that the specified construction denotes the sum of '
+      'identity-padded trees resp. the sum over automaton paths, is consistent, of the requested length, and contains '
+      'no dead states. Real unfoldings (random trees with leaves at different depths, shared operators, start sites; '
+      'automata with self loops, parallel edges, dead states, site-dependent callables) are validated by TLC, which '
+      'recomputes the meaning from the input program and compares it with the free-algebra polynomial of the returned '
+      'graph, decides whether an exception is legitimate (model guard), and checks the dense matrices returned by '
+      'as_matrix() entry by entry under integer operator maps.',
+      'Integer coefficients/operator maps; trees up to height 5, automata up to 5 states / 11 edges / L<=5; ids of the '
+      'returned graph are not compared (gauge), only meaning, consistency, length, widths and simplifiedness.')
 
 def main():
     props = [json.loads(l) for l in open(os.path.join(VERIF, 'properties.jsonl'))]
